@@ -41,7 +41,19 @@ RULE = (
     "log-uniform in 1e-6..1e-2 (and the switch values of those spectra); (9) cells live-objects: the data object is edited by item "
     "assignment between calls (hosvd x3, tucker_als x2), then the caller's start matrices are edited in place; every call is "
     "judged against the current state, earlier results and returned starts must stay bit-identical, writing into results must "
-    "reach neither data nor starts; (10) tol up to 1 - 1e-12, tucker_als with maxiters 1, stoptol 2.5 / 1e300, printitn > maxiters."
+    "reach neither data nor starts; (10) tol up to 1 - 1e-12, tucker_als with maxiters 1, stoptol 2.5 / 1e300, printitn > maxiters.  "
+    "Round 4 classes: (11) cells "
+    "presentations: the same request twice, once with list-of-Python-int ranks / mode order, Python float tol, F-ordered float64 "
+    "starts and keywords, once with ranks / rank / mode order as tuple, ndarray of int64/32/16/8 and uint8/16/32/64, list or tuple of "
+    "NumPy integer scalars, read-only or strided view, bare int / NumPy scalar (one mode, or a common rank), tol / stoptol as "
+    "np.float64 / np.float32 scalar, maxiters / printitn as NumPy integer scalars, starts C-ordered / float32 / read-only / strided / "
+    "None for the mode solved first, options positionally, data in a second holder (float32 and integer dtypes vs float64, other "
+    "provenance); both results judged by the property's clauses, same ranks / sweeps, same model (hosvd, 1e-20 ||X||^2) or same "
+    "residual, caller's arrays unchanged; (12) cell rejected-requests: valid request, ill-formed request on the same objects (whether "
+    "it is turned down is not judged), the valid request again -- data, starts, argument arrays, earlier result unchanged, same "
+    "result again; (13) cells reporting: the same request quiet and at another verbosity / printitn with the root logger at DEBUG -- "
+    "bit for bit the same result where the run is deterministic (hosvd; tucker_als with every r_n >= n_n - 1), same sweeps and residual "
+    "otherwise."
 )
 ASSUMPTIONS = [
     "bulk numeric content expanded by np.random.default_rng from Hypothesis-drawn integer seeds; spectra, tol class, "
@@ -60,6 +72,16 @@ ASSUMPTIONS = [
     "(degenerate: extra columns are arbitrary null-space vectors picked by ARPACK's internal random start, so two runs differ) are generated at a reduced rate and judged only by the per-run "
     "clauses (structure, reported fit, iteration limit, printed fits of one run non-decreasing)",
     "printed relative error (6 significant digits) within 1e-5 relative of the recomputed one when that exceeds 1e-9",
+    "tol given as np.float32: the baseline uses the same number as Python float; the bound is judged with relative slack 1e-6 (tol^2 is "
+    "then known to 1e-7), the automatic ranks are compared with the baseline only when tol (1 -+ 1e-5) give the same choice, and the "
+    "form is used only when tol^2 ||X||^2 / d >= 1e-36 (NumPy evaluates the threshold in single precision; below that it is "
+    "subnormal or zero -- more columns than needed are kept, the bound still holds)",
+    "data in a second holder: automatic ranks compared only when tol (1 -+ 1e-7) (1e-3 for float32 data) give the same choice; "
+    "residuals compared to 1e-9 ||X||^2 (1e-4 float32 hosvd, 1e-5 float32 tucker_als, 1e-6 on the ARPACK path)",
+    "float32 data for tucker_als (presentations cell only): orthonormality 1e-5, core 1e-9 ||X||^2, reported fit / normresidual "
+    "1e-5 ||X||^2 (||X|| is taken in single precision); float32 start matrices: residual compared with the float64 presentation of "
+    "the same start to 1e-5 ||X||^2 (integer / float32 data times a float32 matrix is formed in single precision); the model itself "
+    "is held to the double-precision clauses",
 ]
 
 
@@ -78,7 +100,13 @@ def _int_square_wraps(case):
     return bool(float(np.max(np.abs(A))) ** 2 > float(np.iinfo(np.dtype(dt)).max))
 
 
-PREDICATES = {"ranks_given_inside": _ranks_given_inside, "int_square_wraps": _int_square_wraps}
+def _dimorder_uint64(case):
+    """tucker_als with the mode order given as uint64 array / np.uint64 scalars (tensor.ttm promotes uint64 + int to float64)."""
+    return case.get("dimorder") is not None and "uint64" in str(case.get("dimorder_form", ""))
+
+
+PREDICATES = {"ranks_given_inside": _ranks_given_inside, "int_square_wraps": _int_square_wraps,
+              "dimorder_uint64": _dimorder_uint64}
 
 # --------------------------------------------------------------------------
 # data with prescribed spectra
@@ -933,3 +961,748 @@ def tucker_live_objects(ctx, case):
                     u[...] = 7
     ctx.check(H.snapshot(X) == snapX and H.snapshot(init) == snapI, "editing-the-results-leaves-data-and-guess-alone")
     ctx.check(snap_res(r1) == s1 and (r3 is None or snap_res(r2) == s2), "editing-the-results-leaves-earlier-results-alone")
+
+
+# --------------------------------------------------------------------------
+# round 4, class 11: the same request in two presentations
+# --------------------------------------------------------------------------
+
+# how a vector of small non-negative integers (ranks, mode order) reaches the library.  "scalars": a list of NumPy integer
+# scalars (what `for n in np.arange(N)` or entries of a shape array give); "readonly" / "strided": array views
+_IDT = ["int64", "int32", "int16", "int8", "uint8", "uint16", "uint32", "uint64"]
+INT_FORMS = (["list", "tuple"] + ["array-" + d for d in _IDT] + ["scalars-" + d for d in _IDT]
+             + ["tuple-scalars-uint16", "tuple-scalars-int32", "readonly-uint8", "readonly-int64", "strided-int32",
+                "strided-uint64", "strided-uint8", "array-uint8", "array-uint64", "array-uint16"])
+
+
+def present(v, form):
+    """the integer vector v in the given presentation"""
+    if v is None:
+        return None
+    v = [int(x) for x in v]
+    if form == "list":
+        return list(v)
+    if form == "tuple":
+        return tuple(v)
+    if form.startswith("bare"):  # a single entry given without its container (Python int or NumPy scalar)
+        return v[0] if form == "bare" else np.dtype(form[5:]).type(v[0])
+    kind, dt = form.rsplit("-", 1)
+    if kind == "array":
+        return np.array(v, dtype=dt)
+    if kind == "scalars":
+        return [np.dtype(dt).type(x) for x in v]
+    if kind == "tuple-scalars":
+        return tuple(np.dtype(dt).type(x) for x in v)
+    if kind == "readonly":
+        a = np.array(v, dtype=dt)
+        a.setflags(write=False)
+        return a
+    if kind == "strided":
+        big = np.zeros(2 * len(v), dtype=dt)
+        big[::2] = v
+        return big[::2]
+    raise ValueError(form)
+
+
+@st.composite
+def _int_form(draw, n_entries, bare_ok=False):
+    if bare_ok and n_entries == 1 and draw(st.booleans()):
+        return draw(st.sampled_from(["bare", "bare-int64", "bare-int32", "bare-uint8", "bare-uint64"]))
+    return draw(st.sampled_from(INT_FORMS))
+
+
+def _unsigned(form):
+    return form is not None and "uint" in form
+
+
+class _debug_logging:
+    """root logger at DEBUG with a NullHandler, and the process-wide `logging.disable` of core.evaluate lifted, for the
+    duration of the block (class 13: the logging level of the process must not change what is computed)"""
+
+    def __enter__(self):
+        import logging
+
+        self.logging = logging
+        self.root = logging.getLogger()
+        self.level = self.root.level
+        self.disabled = logging.root.manager.disable
+        # pyttb logs through the module-level functions, which install a stderr handler on first use: park every handler
+        # that is there and leave a NullHandler only, so that nothing is printed
+        self.parked = list(self.root.handlers)
+        for h in self.parked:
+            self.root.removeHandler(h)
+        self.handler = logging.NullHandler()
+        self.root.addHandler(self.handler)
+        self.root.setLevel(logging.DEBUG)
+        logging.disable(logging.NOTSET)
+        return self
+
+    def __exit__(self, *exc):
+        self.root.setLevel(self.level)
+        for h in list(self.root.handlers):  # the NullHandler and whatever a logging call installed meanwhile
+            self.root.removeHandler(h)
+        for h in self.parked:
+            self.root.addHandler(h)
+        self.logging.disable(self.disabled)
+        return False
+
+
+def _judge_h(ctx, T, A, tol, ranks_in, tag, f32=False, rel=1e-9):
+    """the property's clauses for one hosvd result; returns (den(T), ranks, ||X - T||^2)"""
+    D, ranks = _structure(ctx, T, A, tag, f32)
+    n2 = H.sq(A)
+    err2 = H.sq(A - D)
+    if ranks_in is None:
+        slack = (max(rel, 1e-4), 1e-9) if f32 else (rel, 64 * ref.EPS * sum(A.shape))
+        ctx.check(err2 <= tol * tol * n2 * (1 + slack[0]) + slack[1] * n2, tag + "relative-error-within-tol",
+                  f"||X-T||^2/||X||^2 = {err2 / n2!r} > tol^2 = {tol * tol!r} (ranks {ranks} of {list(A.shape)})")
+    else:
+        ctx.check(ranks == [int(r) for r in ranks_in], tag + "given-ranks-are-returned", (ranks_in, ranks))
+    return D, ranks, err2
+
+
+@st.composite
+def _hosvd_pres_case(draw, tier):
+    c = draw(_hosvd_case(tier))
+    N = len(c["shape"])
+    c["verbosity"] = draw(st.sampled_from([0, 0, 0, -1, 1]))
+    if draw(st.booleans()):
+        c["ranks"] = [draw(st.integers(1, n)) for n in c["shape"]]
+    else:
+        c["ranks"] = None
+    c["ranks_form"] = draw(_int_form(N, bare_ok=True))
+    c["dimorder_form"] = draw(_int_form(N, bare_ok=True))
+    c["tol_form"] = draw(st.sampled_from(["float", "float", "np.float64", "np.float32", "np.float32"]))
+    # the data in a second holder: same values reached another way / held in another dtype
+    c["data_alt"] = draw(st.sampled_from(["same", "same", "same", "other-prov", "float64-holder", "readonly-buffer"]))
+    c["prov2"] = draw(st.sampled_from(PROVS_ANY))
+    c["positional"] = draw(st.booleans())
+    c["seq_form"] = draw(st.sampled_from(["bool", "np.bool_"]))
+    return c
+
+
+def _readonly_holder(A, dtype):
+    """tensor built without copying on a read-only F-ordered buffer (what np.load(mmap_mode='r') or a frozen array gives)"""
+    buf = np.asfortranarray(np.asarray(A, dtype=float).astype(np.dtype(dtype)))
+    buf.setflags(write=False)
+    X = ttb.tensor(buf, copy=False)
+    if isinstance(X, ttb.tensor) and tuple(X.shape) == tuple(A.shape) and not np.asarray(X.data).flags.writeable:
+        return X
+    return None
+
+
+def _present_tol(tol, form):
+    if form == "np.float64":
+        return np.float64(tol)
+    if form == "np.float32":
+        return np.float32(tol)
+    return float(tol)
+
+
+def _arg_snap(*args):
+    return tuple(H.snapshot(a) if isinstance(a, np.ndarray) else None for a in args)
+
+
+@cell("C10/hosvd/presentations", strategy=_hosvd_pres_case, quick=300, thorough=3000, shards=(4, 16))
+def hosvd_presentations(ctx, case):
+    """the same hosvd request in two presentations: ranks / mode order as list of Python ints vs tuple, ndarray of any signed or
+    unsigned integer dtype, list of NumPy integer scalars, read-only or strided view, bare entry for one mode; tol as Python
+    float vs np.float64 / np.float32 scalar; options by keyword vs positionally; the data in a second holder.  Both results
+    must satisfy the property's clauses, have the same ranks (when the automatic choice does not sit on a rounding edge) and
+    the same model; the caller's argument arrays must stay what they were."""
+    shape = [int(s) for s in case["shape"]]
+    N = len(shape)
+    A = hosvd_data(case)
+    dtype = case.get("dtype", "float64")
+    f32 = dtype == "float32"
+    if f32:
+        A = A.astype(np.float32).astype(float)
+    n2 = H.sq(A)
+    if n2 == 0 or not np.isfinite(n2):
+        ctx.skip("zero-data")
+    tol, tlabel = resolve_tol(case, A)
+    if f32:
+        tol = max(tol, 1e-2)
+    tol_form = case["tol_form"]
+    if tol_form == "np.float32":
+        # np.float32 arithmetic flushes tol^2 ||X||^2 / d towards the subnormal range for tiny data with a tiny tol: the request
+        # is then made with an np.float64 scalar instead (single-precision thresholds are judged in their normal range only)
+        if tol * tol * n2 / N < 1e-36 or not (0.0 < float(np.float32(tol)) < 1.0):
+            tol_form = "np.float64"
+        else:
+            tol = float(np.float32(tol))
+    ranks_in = case["ranks"]
+    dimorder = case["dimorder"]
+    data_alt = case["data_alt"]
+    X2, prov2 = hold(A, dtype, case.get("prov", "ctor"), int(case["data_seed"]))
+    if data_alt == "readonly-buffer":
+        X1, Xr = X2, _readonly_holder(A, dtype)
+        if Xr is None:
+            data_alt = "same"
+        else:
+            X2 = Xr
+    elif data_alt == "same":
+        X1 = X2
+    elif data_alt == "other-prov":
+        X1, _ = hold(A, dtype, case["prov2"], int(case["data_seed"]) + 1)
+    else:  # the same values in a float64 holder built by the constructor
+        X1, _ = hold(A, "float64", "ctor", int(case["data_seed"]))
+        if dtype == "float64" and prov2 == "ctor":
+            data_alt = "same-values-second-object"
+    rform = case["ranks_form"] if ranks_in is not None else None
+    dform = case["dimorder_form"] if dimorder is not None else None
+    ctx.label("dtype-" + dtype, "data-" + data_alt, "tol-as-" + tol_form, tlabel, f"order{N}", case["kind"],
+              "ranks-" + (rform or "auto"), "dimorder-" + (dform or "default"),
+              "ranks-unsigned" if _unsigned(rform) else ("ranks-auto" if rform is None else "ranks-signed"),
+              "dimorder-unsigned" if _unsigned(dform) else ("dimorder-default" if dform is None else "dimorder-signed"),
+              "positional" if case["positional"] else "keywords", "sequential" if case["sequential"] else "all-at-once")
+    seq = bool(case["sequential"])
+    seq_arg = np.bool_(seq) if case.get("seq_form") == "np.bool_" else seq  # e.g. the result of a NumPy comparison
+
+    def plain(X, t):
+        kw = dict(verbosity=0, sequential=seq)
+        if dimorder is not None:
+            kw["dimorder"] = [int(k) for k in dimorder]
+        if ranks_in is not None:
+            kw["ranks"] = [int(r) for r in ranks_in]
+        with H.captured():
+            return ttb.hosvd(X, float(t), **kw)
+
+    with ctx.sut("hosvd-plain"):
+        T0 = plain(X1, tol)
+    D0, ranks0, err0 = _judge_h(ctx, T0, A, tol, ranks_in, "plain-", np.asarray(X1.data).dtype == np.float32)
+    # presented request
+    r_arg, d_arg = present(ranks_in, rform), present(dimorder, dform)
+    t_arg = _present_tol(tol, tol_form)
+    verbosity = case["verbosity"]
+    snapX, snapA = H.snapshot(X2), _arg_snap(r_arg, d_arg)
+    with ctx.sut("hosvd-presented"):
+        with H.captured():
+            if case["positional"]:
+                T1 = ttb.hosvd(X2, t_arg, verbosity, d_arg, seq_arg, r_arg)
+            else:
+                kw = dict(verbosity=verbosity, sequential=seq_arg)
+                if d_arg is not None:
+                    kw["dimorder"] = d_arg
+                if r_arg is not None:
+                    kw["ranks"] = r_arg
+                T1 = ttb.hosvd(X2, t_arg, **kw)
+    ctx.check(H.snapshot(X2) == snapX, "data-unchanged")
+    ctx.check(_arg_snap(r_arg, d_arg) == snapA, "argument-arrays-unchanged")
+    rel = 1e-6 if tol_form == "np.float32" else 1e-9  # a single-precision tol fixes tol^2 to 1e-7 relative
+    D1, ranks1, err1 = _judge_h(ctx, T1, A, tol, ranks_in, "presented-", f32, rel)
+    ctx.nt = any(r < n for r, n in zip(ranks1, shape)) and err1 > 1e-6 * n2
+    # the same answer.  Automatic ranks: when the request differs by rounding (single-precision tol, second holder) the choice
+    # is compared only where it is the same for tol (1 - delta) and tol (1 + delta)
+    delta = 0.0
+    if ranks_in is None:
+        if tol_form == "np.float32":
+            delta = 1e-5
+        if X1 is not X2:
+            delta = max(delta, 1e-3 if f32 else 1e-7)
+    stable = True
+    if delta > 0:
+        with ctx.sut("hosvd-plain"):
+            lo, hi = plain(X1, tol * (1 - delta)), plain(X1, min(tol * (1 + delta), 1 - 1e-15))
+        stable = [u.shape[1] for u in lo.factor_matrices] == [u.shape[1] for u in hi.factor_matrices] == ranks0
+    ctx.label("choice-stable" if stable else "choice-on-a-rounding-edge")
+    if stable:
+        ctx.check(ranks1 == ranks0, "same-ranks-in-both-presentations", (ranks0, ranks1))
+        if ranks1 == ranks0:
+            if X1 is X2:
+                ctx.check(H.sq(D1 - D0) <= 1e-20 * n2, "same-model-in-both-presentations",
+                          f"||T1 - T0||^2 = {H.sq(D1 - D0)!r}, ||X||^2 = {n2!r}")
+            else:
+                # another holder: the Gram matrices agree to rounding only, so tied directions may be split differently;
+                # the captured energy is well conditioned
+                ctx.check(abs(err1 - err0) <= (1e-4 if f32 else 1e-9) * n2, "same-error-in-both-presentations", (err0, err1))
+
+
+_INIT_FORMS = ["same", "c-order", "float32", "readonly", "strided", "first-none", "c-order", "float32"]
+
+
+def _present_init(init, form, first):
+    """(baseline list, presented list): the same start matrices as F-ordered float64 arrays and in another presentation"""
+    if not isinstance(init, list):
+        return init, init
+    base, alt = [], []
+    for k, M in enumerate(init):
+        if form == "float32" and M.dtype.kind == "f":
+            M32 = np.asfortranarray(M.astype(np.float32))
+            base.append(np.asfortranarray(M32.astype(float)))
+            alt.append(M32)
+            continue
+        base.append(M)
+        if form == "c-order":
+            alt.append(np.ascontiguousarray(M))
+        elif form == "readonly":
+            R = M.copy(order="F")
+            R.setflags(write=False)
+            alt.append(R)
+        elif form == "strided":
+            big = np.zeros((2 * M.shape[0], M.shape[1]), dtype=M.dtype)
+            big[::2] = M
+            alt.append(big[::2])
+        elif form == "first-none" and k == first:
+            alt.append(None)  # what a previous call returns as its start for the mode solved first
+        else:
+            alt.append(M)
+    return base, alt
+
+
+@st.composite
+def _tucker_pres_case(draw, tier):
+    c = draw(_tucker_case(tier))
+    N = len(c["shape"])
+    if c["dtype"] == "float64" and draw(st.integers(0, 5)) == 0:
+        c["dtype"] = "float32"
+        c["prov"] = draw(st.sampled_from(PROVS_ANY))
+    c["init"] = draw(st.sampled_from(["random", "nvecs", "list", "list", "list-orth", "list-zeros", "list-int", "list-unit",
+                                      "list-near-eye", "list-tiny", "list-huge"]))
+    c["maxiters"] = draw(st.integers(1, 3))
+    c["stoptol"] = draw(st.sampled_from([0.0, 0.0, 0.0, 1e-3, 2.5]))
+    c["printitn"] = draw(st.sampled_from([0, 0, 0, 1]))
+    scalar_ok = len(set(c["rank"])) == 1
+    c["rank_form2"] = draw(_int_form(1, bare_ok=True)) if scalar_ok and draw(st.booleans()) else draw(_int_form(N))
+    c["dimorder_form"] = draw(_int_form(N))
+    c["init_form"] = draw(st.sampled_from(_INIT_FORMS))
+    c["maxiters_form"] = draw(st.sampled_from(["int", "int64", "int32", "uint8", "uint64"]))
+    c["printitn_form"] = draw(st.sampled_from(["int", "int64", "int16"]))
+    c["stoptol_form"] = draw(st.sampled_from(["float", "np.float64", "np.float32"]))
+    c["data_alt"] = draw(st.sampled_from(["same", "same", "float64-holder", "readonly-buffer"]))
+    c["positional"] = draw(st.booleans())
+    return c
+
+
+def _np_int(v, form):
+    return int(v) if form == "int" else np.dtype(form).type(v)
+
+
+def _judge_t(ctx, res, A, rank, tag, f32=False):
+    ctx.require(isinstance(res, tuple) and len(res) == 3, tag + "returns-triple")
+    T, Uinit, out = res
+    D, got = _structure(ctx, T, A, tag, f32)
+    ctx.check(got == rank, tag + "requested-ranks-are-returned", (got, rank))
+    if not f32:
+        err2 = _tucker_reported(ctx, out, A, D, tag)
+    else:
+        # float32 data: ||X|| is taken in single precision (1e-7 relative), so the reported quantities are judged to 1e-5 ||X||^2
+        n2 = H.sq(A)
+        nX = float(np.sqrt(n2))
+        ctx.require(isinstance(out, dict) and all(k in out for k in ("fit", "normresidual", "iters")), f"{tag}output-keys")
+        fit, nr = out["fit"], out["normresidual"]
+        ctx.require(H.is_float(fit) and H.is_float(nr) and np.isfinite(fit) and np.isfinite(nr), f"{tag}fit-is-finite-number",
+                    (fit, nr))
+        fit, nr = float(fit), float(nr)
+        err2 = H.sq(A - D)
+        ctx.check(nr >= 0 and abs(nr * nr - err2) <= 1e-5 * n2, f"{tag}normresidual-vs-recomputed", (nr * nr, err2))
+        ctx.check(abs(((1 - fit) * nX) ** 2 - err2) <= 1e-5 * n2 and fit <= 1 + 1e-6, f"{tag}fit-vs-recomputed",
+                  f"reported {fit!r} recomputed {1 - np.sqrt(err2) / nX!r}")
+    return T, Uinit, out, err2
+
+
+
+def _well_posed(case, A, U0, rank, order, sweeps):
+    """False for requests whose extra columns are arbitrary (see ASSUMPTIONS): cross-run comparisons are not made for them"""
+    shape = list(A.shape)
+    N = len(shape)
+    if not all(r <= ref.prod(rank) // r for r in rank):
+        return False
+    if case["kind"] == "tucker-noise" and float(case["noise"]) == 0.0 and any(m < r for m, r in zip(case["mlrank"], rank)):
+        return False
+    ok_init = isinstance(U0, list) and len(U0) == N and all(
+        isinstance(u, np.ndarray) and u.shape == (shape[k], rank[k]) and np.all(np.isfinite(u))
+        for k, u in enumerate(U0) if k != order[0])
+    return bool(ok_init and hooi_margin(A, U0, rank, order, sweeps) >= 1e-12)
+
+
+@cell("C10/tucker_als/presentations", strategy=_tucker_pres_case, quick=100, thorough=1000, shards=(4, 16))
+def tucker_presentations(ctx, case):
+    """the same tucker_als request in two presentations: rank / mode order in every integer form (scalar where all ranks are
+    equal), start matrices C-ordered / float32 / read-only / strided / with None for the mode solved first, maxiters and
+    printitn as NumPy integer scalars, stoptol as NumPy float scalar, options positionally, data in a second holder (float32
+    and integer dtypes vs float64).  Both runs must satisfy the property's clauses, take the same number of sweeps (stoptol 0)
+    and reach the same residual; the caller's arrays must stay what they were."""
+    shape = [int(s) for s in case["shape"]]
+    N = len(shape)
+    rank = [int(r) for r in case["rank"]]
+    A = tucker_data(case)
+    dtype = case.get("dtype", "float64")
+    f32 = dtype == "float32"
+    if f32:
+        A = A.astype(np.float32).astype(float)
+    n2 = H.sq(A)
+    if n2 == 0 or not np.isfinite(n2):
+        ctx.skip("zero-data")
+    X2, prov = hold(A, dtype, case.get("prov", "ctor"), int(case["data_seed"]))
+    if case["data_alt"] == "readonly-buffer":
+        X1 = X2
+        X2 = _readonly_holder(A, dtype) or X2
+    else:
+        X1 = X2 if case["data_alt"] == "same" else hold(A, "float64", "ctor", int(case["data_seed"]))[0]
+    dimorder = case["dimorder"]
+    order = [int(k) for k in dimorder] if dimorder is not None else list(range(N))
+    init0, init1 = _present_init(_tucker_init(case), case["init_form"], order[0])
+    maxiters, stoptol, printitn = int(case["maxiters"]), float(case["stoptol"]), int(case["printitn"])
+    if case["stoptol_form"] == "np.float32":
+        stoptol = float(np.float32(stoptol))
+    rform = case["rank_form2"]
+    dform = case["dimorder_form"] if dimorder is not None else None
+    arpack = any(r < n - 1 for r, n in zip(rank, shape))
+    ctx.label("dtype-" + dtype, "prov-" + prov, "data-" + case["data_alt"], "init-" + case["init"],
+              "init-as-" + (case["init_form"] if isinstance(init1, list) else "string"), "rank-" + rform,
+              "rank-unsigned" if _unsigned(rform) else "rank-signed", "dimorder-" + (dform or "default"),
+              "dimorder-unsigned" if _unsigned(dform) else ("dimorder-default" if dform is None else "dimorder-signed"),
+              "maxiters-" + case["maxiters_form"], "stoptol-" + case["stoptol_form"], "positional" if case["positional"] else "keywords",
+              "arpack-path" if arpack else "dense-eig-path", f"order{N}")
+    ctx.nt = any(r < n for r, n in zip(rank, shape))
+
+    def seed():
+        if case["init"] == "random":
+            np.random.seed(case["np_seed"])
+
+    with ctx.sut("tucker_als-plain"):
+        seed()
+        with H.captured():
+            kw = dict(stoptol=stoptol, maxiters=maxiters, init=init0, printitn=0)
+            if dimorder is not None:
+                kw["dimorder"] = list(order)
+            res0 = ttb.tucker_als(X1, list(rank), **kw)
+    _, U0, out0, err0 = _judge_t(ctx, res0, A, rank, "plain-", np.asarray(X1.data).dtype == np.float32)
+    r_arg, d_arg = present(rank if not rform.startswith("bare") else rank[:1], rform), present(dimorder, dform)
+    m_arg, p_arg = _np_int(maxiters, case["maxiters_form"]), _np_int(printitn, case["printitn_form"])
+    s_arg = _present_tol(stoptol, case["stoptol_form"])
+    snapX, snapI, snapA = H.snapshot(X2), H.snapshot(init1), _arg_snap(r_arg, d_arg)
+    with ctx.sut("tucker_als-presented"):
+        seed()
+        with H.captured():
+            if case["positional"]:
+                res1 = ttb.tucker_als(X2, r_arg, s_arg, m_arg, d_arg, init1, p_arg)
+            else:
+                kw = dict(stoptol=s_arg, maxiters=m_arg, init=init1, printitn=p_arg)
+                if d_arg is not None:
+                    kw["dimorder"] = d_arg
+                res1 = ttb.tucker_als(X2, r_arg, **kw)
+    ctx.check(H.snapshot(X2) == snapX, "data-unchanged")
+    ctx.check(H.snapshot(init1) == snapI, "guess-unchanged")
+    ctx.check(_arg_snap(r_arg, d_arg) == snapA, "argument-arrays-unchanged")
+    _, U1, out1, err1 = _judge_t(ctx, res1, A, rank, "presented-", f32)
+    if isinstance(init1, list):
+        same = isinstance(U1, list) and len(U1) == N and all(
+            (g is None and u is None) or (isinstance(u, np.ndarray) and g is not None and u.shape == g.shape and np.array_equal(u, g))
+            for u, g in zip(U1, init1))
+        ctx.check(same, "returned-guess-is-the-given-one")
+    it0, it1 = H.as_int(out0["iters"]), H.as_int(out1["iters"])
+    ctx.require(it0 is not None and it1 is not None and 0 <= it1 <= maxiters - 1, "iters-within-limit", (out0["iters"], out1["iters"]))
+    feasible = _well_posed(case, A, U0, rank, order, maxiters)
+    ctx.label("well-posed" if feasible else "degenerate")
+    if stoptol == 0 or stoptol > 2:
+        ctx.check(it0 == it1, "same-number-of-sweeps-in-both-presentations", (it0, it1))
+    if feasible and it0 == it1:
+        # float32 start matrices: with integer / float32 data NumPy forms data x start in single precision, so the first sweep
+        # is a single-precision computation (with float64 data the product is formed in float64 and nothing changes)
+        single = f32 or (case["init_form"] == "float32" and isinstance(init1, list))
+        bound = 1e-5 if single else (1e-6 if arpack else 1e-9)
+        ctx.check(abs(err1 - err0) <= bound * n2, "same-residual-in-both-presentations",
+                  f"||X-T||^2 plain {err0!r}, presented {err1!r}, ||X||^2 = {n2!r}")
+
+
+# --------------------------------------------------------------------------
+# round 4, class 13: reporting options and the logging level of the process
+# --------------------------------------------------------------------------
+
+
+@st.composite
+def _hosvd_report_case(draw, tier):
+    c = draw(_hosvd_case(tier))
+    c["verbosity"] = draw(st.sampled_from([-1, 0, 0]))
+    c["verbosity2"] = draw(st.sampled_from([1, 1, 3, 6, 6, 11, 0.5, 2.5, 5, 5.5, 1000, 0, -7.5]))
+    c["debug"] = draw(st.sampled_from([True, True, False]))
+    return c
+
+
+@cell("C10/hosvd/reporting", strategy=_hosvd_report_case, quick=150, thorough=1500, shards=(4, 16))
+def hosvd_reporting(ctx, case):
+    """the same hosvd request quiet and at another print level (stdout captured), the second with the root logger at DEBUG:
+    the computation is deterministic, so core and factors must be bit for bit the same."""
+    A = hosvd_data(case)
+    dtype = case.get("dtype", "float64")
+    f32 = dtype == "float32"
+    if f32:
+        A = A.astype(np.float32).astype(float)
+    n2 = H.sq(A)
+    if n2 == 0 or not np.isfinite(n2):
+        ctx.skip("zero-data")
+    tol, tlabel = resolve_tol(case, A)
+    if f32:
+        tol = max(tol, 1e-2)
+    X, prov = hold(A, dtype, case.get("prov", "ctor"), int(case["data_seed"]))
+    kw = dict(sequential=bool(case["sequential"]))
+    if case["dimorder"] is not None:
+        kw["dimorder"] = _form(case["dimorder"], case["form"])
+    if case["ranks"] is not None:
+        kw["ranks"] = _form(case["ranks"], case["form"])
+    ctx.label("dtype-" + dtype, f"quiet-{case['verbosity']}", f"verbose-{case['verbosity2']}", "logger-DEBUG" if case["debug"] else
+              "logger-default", "ranks-given" if case["ranks"] is not None else "ranks-auto", f"order{A.ndim}",
+              "sequential" if case["sequential"] else "all-at-once")
+    with ctx.sut("hosvd-quiet"):
+        with H.captured():
+            T0 = ttb.hosvd(X, tol, verbosity=case["verbosity"], **kw)
+    D0, ranks0, err0 = _judge_h(ctx, T0, A, tol, case["ranks"], "quiet-", f32)
+    snapX = H.snapshot(X)
+    with ctx.sut("hosvd-verbose"):
+        with H.captured():
+            if case["debug"]:
+                with _debug_logging():
+                    T1 = ttb.hosvd(X, tol, verbosity=case["verbosity2"], **kw)
+            else:
+                T1 = ttb.hosvd(X, tol, verbosity=case["verbosity2"], **kw)
+    ctx.check(H.snapshot(X) == snapX, "data-unchanged")
+    D1, ranks1, err1 = _judge_h(ctx, T1, A, tol, case["ranks"], "verbose-", f32)
+    ctx.nt = any(r < n for r, n in zip(ranks1, A.shape))
+    ctx.check(ranks0 == ranks1, "same-ranks-quiet-and-verbose", (ranks0, ranks1))
+    ctx.check(H.snapshot(T0) == H.snapshot(T1), "same-result-quiet-and-verbose",
+              f"||T1 - T0||^2 = {H.sq(D1 - D0)!r}" if D1.shape == D0.shape else (D0.shape, D1.shape))
+
+
+@st.composite
+def _tucker_report_case(draw, tier):
+    c = draw(_tucker_case(tier))
+    c["maxiters"] = draw(st.integers(1, 4))
+    c["printitn"] = draw(st.sampled_from([0, 0, -1]))
+    c["printitn2"] = draw(st.sampled_from([1, 1, 2, 3, 7, 1000, -5, 0]))
+    c["debug"] = draw(st.sampled_from([True, True, False]))
+    if draw(st.booleans()):
+        # every mode on the dense eigen-solver (r_n >= n_n - 1): the run is deterministic and compared bit for bit
+        c["rank"] = [max(1, n - draw(st.integers(0, 1))) for n in c["shape"]]
+        if c["rank_form"] == "scalar":
+            c["rank_form"] = "list"
+    return c
+
+
+@cell("C10/tucker_als/reporting", strategy=_tucker_report_case, quick=120, thorough=1200, shards=(4, 16))
+def tucker_reporting(ctx, case):
+    """the same tucker_als request quiet and printing (stdout captured), the second with the root logger at DEBUG: same number
+    of sweeps and same residual; where every mode goes through the dense eigen-solver the run is deterministic and everything
+    returned (model, start, fit, normresidual, iters) must be bit for bit the same."""
+    shape = [int(s) for s in case["shape"]]
+    N = len(shape)
+    rank = [int(r) for r in case["rank"]]
+    A = tucker_data(case)
+    n2 = H.sq(A)
+    if n2 == 0:
+        ctx.skip("zero-data")
+    X, prov = hold(A, case.get("dtype", "float64"), case.get("prov", "ctor"), int(case["data_seed"]))
+    init = _tucker_init(case)
+    maxiters, stoptol = int(case["maxiters"]), float(case["stoptol"])
+    arpack = any(r < n - 1 for r, n in zip(rank, shape))
+    ctx.label("dtype-" + case.get("dtype", "float64"), "init-" + case["init"], f"quiet-{case['printitn']}", f"printing-{case['printitn2']}",
+              "logger-DEBUG" if case["debug"] else "logger-default", "arpack-path" if arpack else "dense-eig-path", f"order{N}",
+              "stoptol-0" if stoptol == 0 else "stoptol>0")
+    ctx.nt = any(r < n for r, n in zip(rank, shape))
+    with ctx.sut("tucker_als-quiet"):
+        res0, _ = _tucker_run(X, case, init, maxiters, stoptol, int(case["printitn"]))
+    _, U0, out0, err0 = _judge_t(ctx, res0, A, rank, "quiet-")
+    snapX, snapI = H.snapshot(X), H.snapshot(init)
+    with ctx.sut("tucker_als-printing"):
+        if case["debug"]:
+            with _debug_logging():
+                res1, text = _tucker_run(X, case, init, maxiters, stoptol, int(case["printitn2"]))
+        else:
+            res1, text = _tucker_run(X, case, init, maxiters, stoptol, int(case["printitn2"]))
+    ctx.check(H.snapshot(X) == snapX, "data-unchanged")
+    ctx.check(H.snapshot(init) == snapI, "guess-unchanged")
+    _, U1, out1, err1 = _judge_t(ctx, res1, A, rank, "printing-")
+    it0, it1 = H.as_int(out0["iters"]), H.as_int(out1["iters"])
+    ctx.require(it0 is not None and it1 is not None, "iters-is-integer", (out0["iters"], out1["iters"]))
+    if not arpack:
+        same = (H.snapshot(res0[0]), H.snapshot(U0), float(out0["fit"]), float(out0["normresidual"]), it0) == \
+               (H.snapshot(res1[0]), H.snapshot(U1), float(out1["fit"]), float(out1["normresidual"]), it1)
+        ctx.check(same, "same-result-quiet-and-printing", (out0["fit"], out1["fit"], it0, it1))
+        return
+    order = [int(k) for k in case["dimorder"]] if case["dimorder"] is not None else list(range(N))
+    feasible = _well_posed(case, A, U0, rank, order, maxiters)
+    ctx.label("well-posed" if feasible else "degenerate")
+    if stoptol == 0 or stoptol > 2:
+        ctx.check(it0 == it1, "same-number-of-sweeps-quiet-and-printing", (it0, it1))
+    if feasible and it0 == it1:
+        ctx.check(abs(err1 - err0) <= 1e-6 * n2, "same-residual-quiet-and-printing", (err0, err1, n2))
+
+
+# --------------------------------------------------------------------------
+# round 4, class 12: state after a request that was turned down
+# --------------------------------------------------------------------------
+
+_BAD_H = ["ranks-short", "ranks-long", "dimorder-duplicate", "dimorder-out-of-range", "dimorder-short", "dimorder-negative-duplicate",
+          "tol-string", "ranks-negative"]
+_BAD_T = ["init-short", "init-wrong-shape", "init-unknown-string", "stoptol-string", "maxiters-negative", "printitn-string",
+          "dimorder-duplicate", "dimorder-out-of-range", "dimorder-negative-duplicate", "rank-short", "init-not-arrays"]
+
+
+def _bad_dimorder(bad, N, rng):
+    p = [int(k) for k in rng.permutation(N)]
+    if bad == "dimorder-duplicate":
+        p[int(rng.integers(0, N))] = p[int(rng.integers(0, N)) - 1] if N > 1 else 1
+        if sorted(p) == list(range(N)):
+            p[0] = p[-1] if N > 1 else 1
+    elif bad == "dimorder-out-of-range":
+        p[int(rng.integers(0, N))] = N
+    elif bad == "dimorder-short":
+        p = p[:-1] if N > 1 else [0, 0]
+    elif bad == "dimorder-negative-duplicate":  # -1 next to N-1: a duplicate even under NumPy's reading of negative axes
+        i = p.index(N - 1)
+        p[(i + 1) % N if N > 1 else 0] = -1
+        if N == 1:
+            p = [0, -1]
+    return np.array(p, dtype=np.int64)
+
+
+@st.composite
+def _rejected_case(draw, tier):
+    fn = draw(st.sampled_from(["hosvd", "tucker_als"]))
+    if fn == "hosvd":
+        c = draw(_hosvd_case(tier))
+        if c["dtype"] == "float32":
+            c["dtype"] = "float64"
+        c["verbosity"] = 0
+        c["bad"] = draw(st.sampled_from(_BAD_H))
+    else:
+        c = draw(_tucker_case(tier))
+        c["init"] = draw(st.sampled_from(["list", "list", "list-int", "list-orth", "random", "nvecs"]))
+        c["maxiters"] = draw(st.integers(1, 3))
+        c["stoptol"] = draw(st.sampled_from([0.0, 0.0, 1e-3]))
+        c["printitn"] = 0
+        c["bad"] = draw(st.sampled_from(_BAD_T))
+    c["fn"] = fn
+    c["bad_seed"] = draw(st.integers(0, 10**6))
+    return c
+
+
+@cell("C10/rejected-requests", strategy=_rejected_case, quick=120, thorough=1200, shards=(4, 16))
+def rejected_requests(ctx, case):
+    """a valid request, then an ill-formed one on the same data / start objects (wrong-length or non-permutation mode order,
+    wrong-length ranks, start list of wrong length / shape / kind, non-numeric options), then the valid request again.  Whether
+    the ill-formed request is turned down is not judged here; if it is, the data, the caller's start matrices and the caller's
+    argument arrays must be what they were, and the repeated valid request must give the result of the first one."""
+    fn = case["fn"]
+    hos = fn == "hosvd"
+    A = hosvd_data(case) if hos else tucker_data(case)
+    n2 = H.sq(A)
+    if n2 == 0 or not np.isfinite(n2):
+        ctx.skip("zero-data")
+    shape = [int(s) for s in A.shape]
+    N = len(shape)
+    X, prov = hold(A, case.get("dtype", "float64"), case.get("prov", "ctor"), int(case["data_seed"]))
+    rng = np.random.default_rng([113, int(case["bad_seed"])])
+    bad = case["bad"]
+    if hos:
+        tol, _ = resolve_tol(case, A)
+        kw = dict(verbosity=0, sequential=bool(case["sequential"]))
+        if case["dimorder"] is not None:
+            kw["dimorder"] = _form(case["dimorder"], case["form"])
+        if case["ranks"] is not None:
+            kw["ranks"] = _form(case["ranks"], case["form"])
+        init = None
+        rank = None
+
+        def valid():
+            with H.captured():
+                return ttb.hosvd(X, tol, **kw)
+
+        def snap(res):
+            return H.snapshot(res)
+
+        def judge(res, tag):
+            D, ranks, err2 = _judge_h(ctx, res, A, tol, case["ranks"], tag)
+            return err2, snap(res)
+    else:
+        rank = [int(r) for r in case["rank"]]
+        init = _tucker_init(case)
+        maxiters, stoptol = int(case["maxiters"]), float(case["stoptol"])
+
+        def valid():
+            return _tucker_run(X, case, init, maxiters, stoptol, 0)[0]
+
+        def snap(res):  # judged before: a triple with the documented keys
+            return (H.snapshot(res[0]), H.snapshot(res[1]), float(res[2]["fit"]), H.as_int(res[2]["iters"]))
+
+        def judge(res, tag):
+            _, U, out, err2 = _judge_t(ctx, res, A, rank, tag)
+            return err2, snap(res)
+    arpack = (not hos) and any(r < n - 1 for r, n in zip(rank, shape))
+    with ctx.sut(fn + "-first"):
+        R0 = valid()
+    err0, s0 = judge(R0, "first-")
+    # the ill-formed request
+    args = []
+    bkw = {}
+    if bad.startswith("dimorder"):
+        bkw["dimorder"] = _bad_dimorder(bad, N, rng)
+    elif bad == "ranks-short":
+        bkw["ranks"] = np.array([1] * (N - 1), dtype=np.int64) if N > 1 else np.array([], dtype=np.int64)
+    elif bad == "ranks-long":
+        bkw["ranks"] = np.array([1] * (N + 1), dtype=np.int64)
+    elif bad == "ranks-negative":
+        bkw["ranks"] = np.array([-1] * N, dtype=np.int64)
+    elif bad == "rank-short":
+        bkw["rank"] = np.array([1] * (N - 1), dtype=np.int64) if N > 2 else np.array([], dtype=np.int64)
+    elif bad == "tol-string":
+        bkw["tol"] = "0.1"
+    elif bad == "stoptol-string":
+        bkw["stoptol"] = "1e-4"
+    elif bad == "printitn-string":
+        bkw["printitn"] = "1"
+    elif bad == "maxiters-negative":
+        bkw["maxiters"] = -1
+    elif bad == "init-unknown-string":
+        bkw["init"] = "randomm"
+    elif bad in ("init-short", "init-wrong-shape", "init-not-arrays"):
+        # built from the caller's own start matrices (or generic ones when the valid request uses a named start)
+        base = init if isinstance(init, list) else [H.F(rng.standard_normal((n, r))) for n, r in zip(shape, rank)]
+        order = [int(k) for k in case["dimorder"]] if case["dimorder"] is not None else list(range(N))
+        if bad == "init-short":
+            bkw["init"] = list(base[:-1])
+        elif bad == "init-wrong-shape":
+            k = order[-1]
+            bl = list(base)
+            bl[k] = H.F(rng.standard_normal((shape[k] + 1, rank[k])))
+            bkw["init"] = bl
+        else:
+            bkw["init"] = [M.tolist() for M in base]
+    ctx.label(fn, "bad-" + bad, "dtype-" + case.get("dtype", "float64"), f"order{N}", "arpack-path" if arpack else "deterministic")
+    snapX, snapI = H.snapshot(X), H.snapshot(init)
+    held = [v for v in bkw.values() if isinstance(v, np.ndarray)] + [M for v in bkw.values() if isinstance(v, list) for M in v
+                                                                      if isinstance(M, np.ndarray)]
+    snapB = [H.snapshot(v) for v in held]
+    raised = None
+    try:
+        with H.captured():
+            if hos:
+                k2 = dict(kw)
+                k2.update({k: v for k, v in bkw.items() if k != "tol"})
+                ttb.hosvd(X, bkw.get("tol", tol), **k2)
+            else:
+                k2 = dict(stoptol=stoptol, maxiters=maxiters, init=init, printitn=0)
+                if case["dimorder"] is not None:
+                    k2["dimorder"] = _form(case["dimorder"], case["form"])
+                k2.update({k: v for k, v in bkw.items() if k != "rank"})
+                if isinstance(k2["init"], str) and k2["init"] == "random":
+                    np.random.seed(case["np_seed"])
+                ttb.tucker_als(X, bkw.get("rank", _form(rank, "list")), **k2)
+    except Exception as e:  # noqa: BLE001
+        raised = type(e).__name__
+    ctx.label("turned-down" if raised else "accepted", f"{bad}:{raised}")
+    ctx.nt = raised is not None
+    ctx.check(H.snapshot(X) == snapX, "data-unchanged-by-ill-formed-request")
+    ctx.check(H.snapshot(init) == snapI, "guess-unchanged-by-ill-formed-request")
+    ctx.check([H.snapshot(v) for v in held] == snapB, "argument-arrays-unchanged-by-ill-formed-request")
+    ctx.check(snap(R0) == s0, "earlier-result-unchanged-by-ill-formed-request")
+    with ctx.sut(fn + "-after-ill-formed-request"):
+        R2 = valid()
+    err2, s2 = judge(R2, "after-ill-formed-")
+    if not arpack:
+        ctx.check(s2 == s0, "valid-request-after-ill-formed-one-gives-the-same-result", (err0, err2))
+    else:
+        order = [int(k) for k in case["dimorder"]] if case["dimorder"] is not None else list(range(N))
+        if s2[3] == s0[3] and _well_posed(case, A, R0[1], rank, order, int(case["maxiters"])):
+            ctx.check(abs(err2 - err0) <= 1e-6 * n2, "valid-request-after-ill-formed-one-gives-the-same-residual", (err0, err2, n2))
